@@ -889,6 +889,9 @@ class _Sim(object):
         if text == "BAD":
             self.fire("converter_raises")
             raise ValueError("cannot convert %r" % text)
+        if text == "WORSE":
+            self.fire("converter_raises_keyerror")
+            raise KeyError(text)
         if type_name == "Num":
             return int(text)
         return text.lower()
@@ -1412,7 +1415,21 @@ def run_world(world, root, extra_formatters=None, keep_model=False, post=None):
             pass
         SIM.vloop = None
     hist["events"] = SIM.events
-    hist["census"] = census(SIM.runner)
+    try:
+        hist["census"] = census(SIM.runner)
+    except Exception as e:
+        # reading the model after the run goes through behave code (e.g. ScenarioOutline.scenarios
+        # builds the rows if nothing built them before): an exception there escaped behave as well
+        hist["census"] = []
+        tb = traceback.extract_tb(e.__traceback__)
+        frames = [(os.path.relpath(f.filename, os.environ.get("VERIF_REPO", "/repo"))
+                   if "behave" in f.filename else f.filename, f.name, f.lineno) for f in tb]
+        if any((fn.startswith("behave/") or "/behave/" in fn) for fn, _n, _l in frames):
+            if not hist.get("escaped"):
+                hist["escaped"] = {"type": type(e).__name__, "msg": str(e)[:300], "frames": frames[-12:],
+                                   "while": "reading the model after the run"}
+        else:
+            raise
     runner = SIM.runner
     hist["runner_state"] = None
     if runner is not None:
